@@ -1,4 +1,149 @@
-import FalconModel.Location
+/-
+  Property C18 — program locations navigate and round-trip consistently.
+
+  Model: `FalconModel/Location.lean` (mirror of `lib/il/location.rs`, `Function::locations`,
+  `Program::function`).  `WFf f` is what falcon's constructors maintain (unique block / instruction / edge
+  indices, edges between existing blocks); `WFp p` is what `Program::add_function` maintains.
+  All statements are for every function / program / location / address; nothing is bounded.
+-/
+import FalconProofs.C18.Reach
+import FalconProofs.C18.Misc
+
 namespace Falcon.C18
 open Falcon
+
+/-- Stepping forward and backward are converse relations: for any two locations `A`, `B` of a well-formed
+    function both calls succeed, and `B` is a successor of `A` exactly when `A` is a predecessor of `B`.
+    (Both are moreover the declarative relation `succB`: `forward_spec` / `backward_spec`.) -/
+theorem forward_backward_converse {f : Function} (hf : WFf f) {A B : FLoc}
+    (hA : A ∈ f.locations) (hB : B ∈ f.locations) :
+    ∃ la lb, A.forward f = .ok la ∧ B.backward f = .ok lb ∧ (B ∈ la ↔ A ∈ lb) := by
+  obtain ⟨la, hla, hma⟩ := forward_spec hf hA
+  obtain ⟨lb, hlb, hmb⟩ := backward_spec hf hB
+  refine ⟨la, lb, hla, hlb, ?_⟩
+  rw [hma, hmb]
+  constructor
+  · intro h; exact ⟨hA, h.2⟩
+  · intro h; exact ⟨hB, h.2⟩
+
+/-- `forward` answers exactly the declarative successor relation (consecutive instructions; last instruction
+    or empty block → each out-edge; edge → first instruction of the tail block or the empty tail block), and
+    every successor is again a location of the function. -/
+theorem forward_is_succ {f : Function} (hf : WFf f) {A : FLoc} (hA : A ∈ f.locations) :
+    ∃ la, A.forward f = .ok la ∧ ∀ B, B ∈ la ↔ (B ∈ f.locations ∧ succB A B = true) :=
+  forward_spec hf hA
+
+theorem backward_is_pred {f : Function} (hf : WFf f) {B : FLoc} (hB : B ∈ f.locations) :
+    ∃ lb, B.backward f = .ok lb ∧ ∀ A, A ∈ lb ↔ (A ∈ f.locations ∧ succB A B = true) :=
+  backward_spec hf hB
+
+/-- Every instruction, empty block and edge is enumerated, nothing else is, and (for a well-formed function)
+    nothing is enumerated twice. -/
+theorem locations_nodup_complete (f : Function) :
+    (∀ l, l ∈ f.locations ↔
+      ((∃ b ∈ f.cfg.blocks, ∃ i ∈ b.instrs, l = .instr b i) ∨
+       (∃ b ∈ f.cfg.blocks, b.instrs = [] ∧ l = .empty b) ∨
+       (∃ e ∈ f.cfg.edges, l = .edge e))) ∧
+    (WFf f → f.locations.Nodup) := by
+  refine ⟨?_, locations_nodup⟩
+  intro l
+  cases l with
+  | instr b i =>
+    rw [mem_locations_instr]
+    constructor
+    · rintro ⟨hb, hi⟩; exact Or.inl ⟨b, hb, i, hi, rfl⟩
+    · rintro (⟨b', hb', i', hi', h⟩ | ⟨b', _, _, h⟩ | ⟨e, _, h⟩)
+      · injection h with h1 h2; subst h1; subst h2; exact ⟨hb', hi'⟩
+      · cases h
+      · cases h
+  | edge e =>
+    rw [mem_locations_edge]
+    constructor
+    · intro he; exact Or.inr (Or.inr ⟨e, he, rfl⟩)
+    · rintro (⟨_, _, _, _, h⟩ | ⟨_, _, _, h⟩ | ⟨e', he', h⟩)
+      · cases h
+      · cases h
+      · injection h with h1; subst h1; exact he'
+  | empty b =>
+    rw [mem_locations_empty]
+    constructor
+    · rintro ⟨hb, he⟩; exact Or.inr (Or.inl ⟨b, hb, he, rfl⟩)
+    · rintro (⟨_, _, _, _, h⟩ | ⟨b', hb', he', h⟩ | ⟨_, _, h⟩)
+      · cases h
+      · injection h with h1; subst h1; exact ⟨hb', he'⟩
+      · cases h
+
+/-- The locations reachable by repeated forward steps from `from_function f` are exactly the instructions,
+    empty blocks and edges anchored at blocks on CFG paths from the entry block (an edge is anchored at its
+    head: it lies on a path from the entry exactly when its head does). -/
+theorem forward_closure {f : Function} (hf : WFf f) {en : Nat} (hen : f.cfg.entry = some en)
+    {b0 : Block} (hb0 : f.cfg.block en = some b0) :
+    PLoc.fromFunction f = some (.ok ⟨f, b0.firstLoc⟩) ∧
+    ∀ l, Reach (FLoc.stepF f) b0.firstLoc l ↔
+      (l ∈ f.locations ∧ Reach (fun k => f.cfg.successorIndices k) en l.anchor) := by
+  refine ⟨by simp [PLoc.fromFunction, hen, Cfg.blockR, hb0, Res.map], forward_closure_aux hf hb0⟩
+
+/-- the executable closure used by the driver computes `Reach` whenever it answers -/
+theorem closure_is_reach {α : Type} [DecidableEq α] (step : α → List α) {n : Nat} {r : α} {out : List α}
+    (h : closure step n [r] [] = some out) (x : α) : x ∈ out ↔ Reach step r x :=
+  closure_spec step h x
+
+/-- Converting any location of a function that belongs to a program to its owned form and applying it to the
+    same program — or to any program holding an equal function at that index, e.g. a clone — yields the same
+    location. -/
+theorem roundtrip {p : Program} (hp : WFp p) {f : Function} (hfp : f ∈ p.functions) (hf : WFf f)
+    {l : FLoc} (hl : l ∈ f.locations) :
+    (PLoc.toOwned ⟨f, l⟩).apply p = .ok ⟨f, l⟩ ∧
+    ∀ p' : Program, (∀ i, p'.function i = p.function i) → (PLoc.toOwned ⟨f, l⟩).apply p' = .ok ⟨f, l⟩ := by
+  have hsome := hp.idx_some f hfp
+  obtain ⟨fi, hfi⟩ := Option.isSome_iff_exists.mp hsome
+  have hfun := function_of_mem hp.idx_nodup hfp hfi
+  have key : ∀ p' : Program, p'.function fi = some f → (PLoc.toOwned ⟨f, l⟩).apply p' = .ok ⟨f, l⟩ := by
+    intro p' h'
+    simp [PLoc.toOwned, OPLoc.apply, hfi, h', apply_toOwned hf hl, Res.map]
+  exact ⟨key p hfun, fun p' h' => key p' (by rw [h' fi]; exact hfun)⟩
+
+/-- Looking up an address finds an instruction with that address whenever one exists, and never answers
+    anything else (no well-formedness needed). -/
+theorem from_address_complete (p : Program) (a : Nat) :
+    ((∃ f ∈ p.functions, ∃ b ∈ f.cfg.blocks, ∃ i ∈ b.instrs, i.addr = some a) →
+        ∃ l, PLoc.fromAddress p a = some l ∧ l.address = some a) ∧
+    (∀ l, PLoc.fromAddress p a = some l →
+        l.fn ∈ p.functions ∧ l.loc ∈ l.fn.locations ∧ l.address = some a) := by
+  constructor
+  · rintro ⟨f, hf, b, hb, i, hi, hia⟩
+    cases h : PLoc.fromAddress p a with
+    | none => exact absurd hia (fromAddress_none h f hf b hb i hi)
+    | some l => exact ⟨l, rfl, (fromAddress_some h).2.2⟩
+  · intro l h; exact fromAddress_some h
+
+/-! ### Non-vacuity: a concrete function with an empty block, a self-loop and a two-way branch -/
+
+private def i0 : Instr := { index := 0, addr := some 0x1000, op := .nop }
+private def i1 : Instr := { index := 1, addr := some 0x1000, op := .nop }
+private def i2 : Instr := { index := 0, addr := some 0x1008, op := .nop }
+private def exF : Function :=
+  { addr := 0x1000, index := some 0,
+    cfg := { blocks := [{ index := 0, instrs := [i0, i1] }, { index := 1 }, { index := 2, instrs := [i2] }],
+             edges := [{ head := 0, tail := 1 }, { head := 0, tail := 2 }, { head := 1, tail := 1 },
+                       { head := 1, tail := 2 }],
+             entry := some 0, exit := some 2 } }
+
+example : WFf exF := by
+  refine ⟨by decide, by decide, by decide, by decide, by decide⟩
+
+example : WFp { functions := [exF] } := ⟨by decide, by decide⟩
+
+example : exF.locations.length = 8 := by decide
+
+/-- the last instruction of block 0 has both out-edges as successors, and is the predecessor of each -/
+example : (FLoc.instr { index := 0, instrs := [i0, i1] } i1).forward exF
+    = .ok [.edge { head := 0, tail := 1 }, .edge { head := 0, tail := 2 }] := by decide
+
+example : (FLoc.edge { head := 0, tail := 1 }).backward exF
+    = .ok [.instr { index := 0, instrs := [i0, i1] } i1] := by decide
+
+/-- duplicate addresses: the lookup still answers an instruction with that address -/
+example : (PLoc.fromAddress { functions := [exF] } 0x1000).map (·.address) = some (some 0x1000) := by decide
+
 end Falcon.C18
